@@ -23,7 +23,7 @@ ENV_LOOKUP = {
     "basana.backtesting.config.Config.get_symbol_info": "symbol precision is configured (premise of every backtesting property)",
     "basana.backtesting.prices.Prices.get_price": "NoPrice: a bar of the pair has been seen (environment)",
     "basana.backtesting.prices.Prices.get_bid_ask": "NoPrice: a bar of the pair has been seen (environment)",
-    "basana.backtesting.prices.Prices.convert": "NoPrice: a price pair exists for the conversion (environment)",
+    # Prices.convert is NOT here: a missing conversion price is an input like any other (D12)
     "basana.backtesting.lending.margin.MarginLoans.get_conditions": "lending conditions are configured (environment)",
     "basana.core.dispatcher.BacktestingDispatcher.now": "at least one event was dispatched (requests come from handlers)",
     "basana.backtesting.liquidity.VolumeShareImpact.take_liquidity": "amount <= available liquidity is established by the order "
